@@ -119,6 +119,24 @@ Proof.
 Qed.
 Print Assumptions C04_open_failure.
 
+(* partitions removed while a request selects its sources (dropped by TRUNCATE / deleted from the tag index after the visit took
+   its snapshot of the matching partitions, before the visit reaches them): they are skipped, and the walk goes on -- a result
+   is exactly the snapshot without the removed ones, so every matching partition that still exists is a source; and when
+   these all open and are fewer than the limit there is a result *)
+Theorem C04_removed_during_visit : forall (A : Type) (removed opens : A -> bool) (snap : list A),
+  (forall l, get_journals_r removed opens merge_limit snap = Some l ->
+     l = filter (fun x => negb (removed x)) snap /\ (forall x, In x l -> opens x = true) /\
+     (forall x, In x snap -> removed x = false -> In x l)) /\
+  ((forall x, In x snap -> removed x = false -> opens x = true) ->
+   (length (filter (fun x => negb (removed x)) snap) < merge_limit)%nat ->
+   get_journals_r removed opens merge_limit snap = Some (filter (fun x => negb (removed x)) snap)).
+Proof.
+  intros A removed opens snap. split.
+  - intros l H. exact (get_journals_r_some removed opens merge_limit snap l H).
+  - intros Ho Hl. apply get_journals_r_all; [unfold merge_limit; lia|exact Ho|exact Hl].
+Qed.
+Print Assumptions C04_removed_during_visit.
+
 (* non-vacuity: five in-memory sources (one empty, ties, one unsorted), odd carry-over twice; the merge of the
    model run by the operations equals the statement's `out`, forward and backward *)
 Example C04_nonvacuous :
